@@ -271,7 +271,8 @@ def get_quant_mode(quant):
             isinstance(quant, quantized_bits) or
             isinstance(quant, quantized_tanh) or
             isinstance(quant, quantized_ulaw)):
-          if bits == 2 and int(quant.integer) == 1:
+          # quantized_tanh has no integer bits
+          if bits == 2 and int(getattr(quant, "integer", 0)) == 1:
             mode = 2
         elif isinstance(quant, quantized_relu):
           if bits == 1 and int(quant.integer) == 1:
